@@ -277,8 +277,26 @@ func c20lookalike(r *RNG, s string) string {
 	return s + "İ"
 }
 
+// c20highbit sets the high bit on some bytes of s (on all of them when r is nil)
+func c20highbit(r *RNG, s string) string {
+	b := []byte(s)
+	hit := false
+	for i := range b {
+		if r == nil || r.Intn(3) == 0 {
+			b[i] |= 0x80
+			hit = true
+		}
+	}
+	if !hit && len(b) > 0 {
+		b[r.Intn(len(b))] |= 0x80
+	}
+	return string(b)
+}
+
 func c20genText(r *RNG) (string, string) {
-	switch r.Intn(12) {
+	switch r.Intn(13) {
+	case 12:
+		return c20highbit(r, c20randCase(r, c20pickName(r))), "highbit"
 	case 0, 1, 2:
 		return c20randCase(r, c20pickName(r)), "case"
 	case 3:
@@ -749,6 +767,20 @@ func c20(c *Ctx) {
 			add(n + "\n")
 			add(n[:len(n)-1])
 			add(n + n[len(n)-1:])
+		}
+	}
+	// every name with the high bit set on one byte, and on all of them: a byte >= 0x80 is not an ASCII
+	// letter whatever its low seven bits say (a table-driven asciiToLower indexed by c&0x7f folds it back)
+	for _, n0 := range append(append([]string{}, c20names...), genC20Texts...) {
+		for _, n := range []string{n0, strings.ToUpper(n0)} {
+			for i := 0; i < len(n); i++ {
+				b := []byte(n)
+				b[i] |= 0x80
+				add(string(b))
+			}
+			if n != "" {
+				add(c20highbit(nil, n))
+			}
 		}
 	}
 	for _, n := range []string{"info", "INFO", "dpanic", "DPANIC", "panic", "PANIC", "warning", "WARNING"} {
